@@ -82,13 +82,53 @@ def forbidden_tokens():
     return hits
 
 
+def gen_refs(cfg):
+    """names of generated definitions (`Gen.x`, `Gen.Ffi.x`) mentioned by the modules that the audit
+    modules of a property import, transitively"""
+    seen, todo, refs = set(), list(cfg["audit_modules"]), set()
+    while todo:
+        mod = todo.pop()
+        if mod in seen or not mod.startswith("RodbusModel") or mod.startswith("RodbusModel.Gen."):
+            continue
+        seen.add(mod)
+        path = os.path.join(LEAN, mod.replace(".", "/") + ".lean")
+        if not os.path.exists(path):
+            continue
+        text = open(path).read()
+        todo.extend(re.findall(r"^import (\S+)", text, flags=re.M))
+        refs.update(re.findall(r"Gen\.((?:Ffi\.)?\w+)", strip_lean_comments(text)))
+    return refs
+
+
+def translator_problems(cfg, out):
+    try:
+        st = json.load(open(os.path.join(CACHE, "translate_status.json")))
+    except Exception:
+        return [out.strip().splitlines()[-1] if out.strip() else "translator failed"]
+    failed = st.get("failed", {})
+    if "*" in failed:
+        return [failed["*"]]
+    refs = gen_refs(cfg)
+    secs = {st["defs"].get(r) for r in refs} - {None}
+    unknown = [r for r in refs if r not in st["defs"] and r not in ("Tables", "FfiTables", "Ffi")]
+    msgs = [f"section {sec}: {failed[sec]}" for sec in sorted(secs) if sec in failed]
+    if unknown and failed:
+        # a referenced definition that no section produced: it belonged to a section that failed
+        # without a previous text to fall back on
+        msgs.append(f"generated definitions missing: {sorted(unknown)[:5]} (failed sections: {sorted(failed)})")
+    return msgs
+
+
 def proof_obligations(pid, cfg, tier):
     """returns dict(obligations, discharged, theorems, problems[])"""
     problems = []
     with Lock("build.lock"):
         rc, out = run([sys.executable, os.path.join(HERE, "translate.py")])
         if rc != 0:
-            problems.append("translator: " + out.strip().splitlines()[-1])
+            # a section of the generated tables could not be regenerated: that breaks the tie for the
+            # properties whose theorems mention a definition of that section, and only for those
+            for msg in translator_problems(cfg, out):
+                problems.append("translator: " + msg)
         # the driver (model + spec) must build in any case: it is the other side of the diff
         rc, out = run(["lake", "build", "rodbus_model"], cwd=LEAN)
         if rc != 0:
